@@ -41,6 +41,8 @@ pub struct GenCfg {
     pub p_many_buckets: u32,
     /// C06: one reopen in three is preceded by media damage to the non-current header page
     pub damage_on_reopen: bool,
+    /// one reopen in three is preceded by a re-stamp of both headers in the legacy format
+    pub legacy_restamp: bool,
 }
 
 impl GenCfg {
@@ -95,6 +97,7 @@ impl GenCfg {
             huge_value: false,
             p_many_buckets: *r.pick(&[0, 0, 10, 30]),
             damage_on_reopen: false,
+            legacy_restamp: false,
         }
     }
 }
@@ -240,6 +243,10 @@ impl Gen {
                     self.txs_done += 0;
                     // a reopen does not count as a transaction
                     if self.r.chance(1, 2) {
+                        if self.cfg.legacy_restamp && self.r.chance(1, 3) {
+                            self.queue.push_back(Step::Reopen);
+                            return Some(Step::RestampLegacy);
+                        }
                         if self.cfg.damage_on_reopen && self.r.chance(1, 3) {
                             self.queue.push_back(Step::Reopen);
                             return Some(Step::DamageOlderHeader { kind: self.r.below(5) as u8 });
